@@ -221,7 +221,7 @@ def check_schedule(ctx, R="C19.schedule"):
         ctx.finding(R, mk, "makeDoLike schedule", "makeDoLike no longer forwards schedule=... to _invokeSubBehavior")
 
 
-def check_runtime_sampling(ctx, R="C19.runtime"):
+def check_runtime_sampling(ctx, R="C19.runtime", recording=None):
     ctx.rule(
         R,
         "run-time random values: during a simulation Distribution.__new__ initialises the distribution with the given parameters, samples "
@@ -253,7 +253,11 @@ def check_runtime_sampling(ctx, R="C19.runtime"):
 
     if not any(is_sim_test(n) for n in ast.walk(fn)):
         raise AnalysisError("shape not recognised: Distribution.__new__ simulation branch")
-    need = ["dist.__init__(*args, **kwargs)", "subsamples = DefaultIdentityDict()", "subsamples[dist] = value", "sim.recordSampledValue(dist, subsamples)", "return value"]
+    # C19 is about what is drawn (initialised with the given parameters, from a fresh map, at once); that every value is also
+    # written to the recording is C18's clause (`recording=True`, rule C18.record)
+    if recording is None:
+        recording = R.startswith("C18")
+    need = ["dist.__init__(*args, **kwargs)", "subsamples = DefaultIdentityDict()"] + (["subsamples[dist] = value", "sim.recordSampledValue(dist, subsamples)"] if recording else []) + ["return value"]
     npaths = 0
     seq_ok = src_ok = rec_ok = True
     where = fn
@@ -275,7 +279,7 @@ def check_runtime_sampling(ctx, R="C19.runtime"):
             src_ok = False
             where = ex or fn
         # recorded before returning
-        if isinstance(ex, ast.Return) and "sim.recordSampledValue(dist, subsamples)" not in txt:
+        if recording and isinstance(ex, ast.Return) and "sim.recordSampledValue(dist, subsamples)" not in txt:
             rec_ok = False
             where = ex
     if npaths < 2:
@@ -288,7 +292,9 @@ def check_runtime_sampling(ctx, R="C19.runtime"):
         ctx.ok(R, fn, "the value is sampled from the distribution itself unless a replay supplies it")
     else:
         ctx.finding(R, where, "runtime sample source", "the run-time value is no longer `dist.sample(subsamples)` (or the replayed value exactly when the replay can continue)")
-    if rec_ok:
+    if not recording:
+        pass
+    elif rec_ok:
         ctx.ok(R, fn, "every return of the simulation branch comes after recordSampledValue")
     else:
         ctx.finding(R, where, "unrecorded return", "a return in the simulation branch of Distribution.__new__ precedes recordSampledValue: that draw is missing from the replay")
